@@ -63,6 +63,7 @@ def gen(r, S=None, saa=False):
     # box written for component j is loosened by 2 - the oracles keep using ex['hi']
     for ex in d['exps']:
         ex['xpiece'] = int(r.integers(0, nz)) if r.random() < 0.3 else None
+        ex['spell'] = int(r.integers(0, 2))           # 1: bounds written component by component, E(z[j]) <= hi_j
     # a bystander decision declared BEFORE y: event-wise (own partition) and affinely adaptive, pinned in a narrow band around
     # gw.z (w >= gw.z + 1, w <= gw.z + 2) and absent from the objective and from every other constraint - the optimum does not
     # depend on it, unless the rule coefficients of different decisions are mixed up
@@ -132,6 +133,8 @@ def build(d, presolve=None):
     for ex in d['exps']:
         hi_written = np.array(ex['hi'], dtype=float)
         cons = (E(z) >= np.array(ex['lo']), E(z) <= hi_written)
+        if ex.get('spell') and ex.get('xpiece') is None:
+            cons = tuple(E(z[j]) >= float(ex['lo'][j]) for j in range(nz)) + tuple(E(z[j]) <= float(hi_written[j]) for j in range(nz))
         if ex.get('xpiece') is not None:
             j = ex['xpiece']
             hi_written[j] += 2.0
